@@ -56,12 +56,12 @@ theorem falsy_leaves (nodes : Array Node) (v : Val) (h : v.truthy = false) : lea
 
 mutual
 def Repr (nodes : Array Node) : Expr → Nat → Prop
-  | .str t _ false, id => ∃ nd, nodes[id]? = some nd ∧ nd.kind = .str ∧ nd.tok = t ∧ nd.suppress = false ∧ nd.root = false
-  | .seq xs false, id => ∃ nd, nodes[id]? = some nd ∧ nd.kind = .seq ∧ nd.suppress = false ∧ nd.root = false ∧
+  | .str t _ sup, id => ∃ nd, nodes[id]? = some nd ∧ nd.kind = .str ∧ nd.tok = t ∧ nd.suppress = sup ∧ nd.root = false
+  | .seq xs sup, id => ∃ nd, nodes[id]? = some nd ∧ nd.kind = .seq ∧ nd.suppress = sup ∧ nd.root = false ∧
       nd.ws = none ∧ nd.skipws = none ∧ ReprList nodes xs nd.kids
-  | .alt xs false, id => ∃ nd, nodes[id]? = some nd ∧ nd.kind = .choice ∧ nd.suppress = false ∧ nd.root = false ∧
+  | .alt xs sup, id => ∃ nd, nodes[id]? = some nd ∧ nd.kind = .choice ∧ nd.suppress = sup ∧ nd.root = false ∧
       nd.ws = none ∧ nd.skipws = none ∧ ReprList nodes xs nd.kids
-  | .rep op x none false false, id => ∃ nd k, nodes[id]? = some nd ∧ nd.kind = repKind op ∧ nd.suppress = false ∧
+  | .rep op x none false sup, id => ∃ nd k, nodes[id]? = some nd ∧ nd.kind = repKind op ∧ nd.suppress = sup ∧
       nd.root = false ∧ nd.sep = none ∧ nd.eolterm = false ∧ nd.kids = [k] ∧ Repr nodes x k
   | _, _ => False
 def ReprList (nodes : Array Node) : List Expr → List Nat → Prop
@@ -192,16 +192,17 @@ theorem preStep_spec {g : Grammar} {x : Sem.Env} (h : Hyp g x) {c : Sem.Ctx} {s0
 
 /-- `Match.parse` of a string match without comment model -/
 theorem matchNode_str {g : Grammar} {x : Sem.Env} (h : Hyp g x) {c : Sem.Ctx} {s : PState} (hi : Inv c s)
-    (p : SubParser) (k id : Nat) (nd : Node) (hk : nd.kind = .str) (hs : nd.suppress = false) :
+    (p : SubParser) (k id : Nat) (nd : Node) (hk : nd.kind = .str) :
     ∃ s', Inv c s' ∧
       ((x.tokLen nd.tok (startPos x c s.pos) = none ∧
           matchNode g (commentsLoop g p k) id nd s = (.nomatch, s')) ∨
        (∃ len, x.tokLen nd.tok (startPos x c s.pos) = some len ∧ s'.pos = startPos x c s.pos + len ∧
-          matchNode g (commentsLoop g p k) id nd s = (.ok (.term id (startPos x c s.pos) len), s'))) := by
+          matchNode g (commentsLoop g p k) id nd s =
+            (.ok (if nd.suppress then .none else .term id (startPos x c s.pos) len), s'))) := by
   obtain ⟨i0, p0⟩ := wsStep_spec h hi
   obtain ⟨s1, i1, p1, e1⟩ := preStep_spec h i0 p k
   rw [matchNode_steps, e1]
-  simp only [postStep, hk, hs, tokLen_eq h, p1, p0]
+  simp only [postStep, hk, tokLen_eq h, p1, p0]
   cases hl : x.tokLen nd.tok (startPos x c s.pos) with
   | none => exact ⟨_, i1.nmRaise _, Or.inl ⟨rfl, rfl⟩⟩
   | some len => exact ⟨_, i1.pos _, Or.inr ⟨len, rfl, rfl, by simp⟩⟩
@@ -591,17 +592,92 @@ theorem RelSeq.post {nodes : Array Node} {c : Sem.Ctx} {pos0 : Nat} {pr : Bool} 
       simp only [Sim.post, Rel, finish_plain id nd v h1 h2 a5]
       exact ⟨a1, a2, a3, a4, a6⟩
 
-theorem sup_false (r : Sem.SRes (List Sem.Item)) :
-    (match r with
-      | .ok p items => Sem.SRes.ok p (if false = true then [] else items)
-      | r => r) = r := by
-  cases r <;> simp
+/-- the suppression epilogue of `Sem.pExpr` -/
+def supWrap (sup : Bool) : Sem.SRes (List Sem.Item) → Sem.SRes (List Sem.Item)
+  | .ok p items => .ok p (if sup then [] else items)
+  | r => r
 
-theorem sup_false' (r : Sem.SRes (List Sem.Item)) :
-    (match r with
-      | .ok p items => Sem.SRes.ok p items
-      | r => r) = r := by
-  cases r <;> simp
+theorem finish_sup (id : Nat) (nd : Node) (v : Val) (h1 : nd.suppress = true) : finish id nd v = .none := by
+  simp [finish, h1, Val.truthy]
+
+/-- epilogue of both sides after a `RelSeq` loop result; `sup` = the node's suppression flag -/
+theorem RelSeq.postS {nodes : Array Node} {c : Sem.Ctx} {pos0 : Nat} {pr : Bool} {out : Res × PState}
+    {sr : Sem.SRes (List Sem.Item)} (h : RelSeq nodes c pos0 pr out sr) (id : Nat) (nd : Node) (cpos : Nat)
+    (sup : Bool) (h1 : nd.suppress = sup) (h2 : nd.root = false) :
+    Rel nodes c pos0 (pr && !sup) (Sim.post id nd cpos out) (supWrap sup sr) := by
+  cases sup with
+  | false =>
+    have := h.post id nd cpos h1 h2
+    cases sr <;> simpa [supWrap] using this
+  | true =>
+    obtain ⟨r, s2⟩ := out
+    unfold RelSeq at h
+    cases r with
+    | fuel => simp [Sim.post, Rel]
+    | bad => cases sr <;> simp at h <;> simp [Sim.post, Rel, supWrap]
+    | «nomatch» => cases sr <;> simp at h <;> simp [Sim.post, Rel, supWrap]; exact h.pos _
+    | ok v =>
+      cases sr with
+      | fuel => exact Rel.fuel_right _ _ _ _ _
+      | skip => simp at h
+      | fail => simp at h
+      | ok p its =>
+        simp only at h
+        obtain ⟨a1, a2, a3, a4, a5, a6⟩ := h
+        simp only [Sim.post, Rel, supWrap, finish_sup id nd v h1]
+        exact ⟨a1, a2, by simp [leaves], a4, by simp⟩
+
+/-- the same after a repetition loop that is past its first element -/
+theorem RelRep.postS {nodes : Array Node} {c : Sem.Ctx} {pos0 : Nat} {need : Bool} {out : Res × PState}
+    {sr : Sem.SRes (List Sem.Item)} (h : RelRep nodes c pos0 false need out sr) (id : Nat) (nd : Node) (cpos : Nat)
+    (sup : Bool) (h1 : nd.suppress = sup) (h2 : nd.root = false) :
+    Rel nodes c pos0 (need && !sup) (Sim.post id nd cpos out) (supWrap sup sr) := by
+  have hs : RelSeq nodes c pos0 need out sr := by
+    obtain ⟨r, s2⟩ := out
+    unfold RelRep at h
+    unfold RelSeq
+    cases r <;> cases sr <;> simp at h ⊢ <;> exact h
+  exact hs.postS id nd cpos sup h1 h2
+
+/-! unfolding lemmas for `Sem.pExpr` on the fragment -/
+
+theorem pExpr_seq (x : Sem.Env) (cm : Option Nat) (m : Nat) (c : Sem.Ctx) (xs : List Expr) (sup : Bool) (pos : Nat) :
+    Sem.pExpr x cm (m+1) c (.seq xs sup) pos = supWrap sup (Sem.pSeq x cm m c xs pos []) := by
+  simp only [Sem.pExpr, Expr.sup]
+  cases Sem.pSeq x cm m c xs pos [] <;> rfl
+
+theorem pExpr_alt (x : Sem.Env) (cm : Option Nat) (m : Nat) (c : Sem.Ctx) (xs : List Expr) (sup : Bool) (pos : Nat) :
+    Sem.pExpr x cm (m+1) c (.alt xs sup) pos = supWrap sup (Sem.pAlt x cm m c xs pos) := by
+  simp only [Sem.pExpr, Expr.sup]
+  cases Sem.pAlt x cm m c xs pos <;> rfl
+
+theorem pExpr_opt (x : Sem.Env) (cm : Option Nat) (m : Nat) (c : Sem.Ctx) (y : Expr) (sup : Bool) (pos : Nat) :
+    Sem.pExpr x cm (m+1) c (.rep .opt y none false sup) pos =
+      supWrap sup (match Sem.pExpr x cm m c y pos with
+        | .fail => .ok pos []
+        | r => r) := by
+  simp only [Sem.pExpr, Expr.sup]
+  cases Sem.pExpr x cm m c y pos <;> rfl
+
+theorem pExpr_star (x : Sem.Env) (cm : Option Nat) (m : Nat) (c : Sem.Ctx) (y : Expr) (sup : Bool) (pos : Nat) :
+    Sem.pExpr x cm (m+1) c (.rep .star y none false sup) pos =
+      supWrap sup (Sem.pRep x cm m c y none pos [] true) := by
+  simp only [Sem.pExpr, Expr.sup, Bool.false_eq_true, ↓reduceIte]
+  cases Sem.pRep x cm m c y none pos [] true <;> rfl
+
+theorem pExpr_plus (x : Sem.Env) (cm : Option Nat) (m : Nat) (c : Sem.Ctx) (y : Expr) (sup : Bool) (pos : Nat) :
+    Sem.pExpr x cm (m+1) c (.rep .plus y none false sup) pos =
+      supWrap sup (match Sem.pExpr x cm m c y pos with
+        | .ok p1 items1 => if p1 = pos then .ok p1 items1 else Sem.pRep x cm m c y none p1 items1 false
+        | r => r) := by
+  simp only [Sem.pExpr, Expr.sup, Bool.false_eq_true, ↓reduceIte]
+  cases Sem.pExpr x cm m c y pos with
+  | ok p1 items1 =>
+    by_cases hpp : p1 = pos
+    · simp [hpp, supWrap]; cases sup <;> rfl
+    · simp only [hpp, ↓reduceIte]
+      cases Sem.pRep x cm m c y none p1 items1 false <;> rfl
+  | _ => rfl
 
 /-- **Simulation.**  On a table that represents `e`, the Arpeggio mirror and the documented
 semantics agree whenever neither runs out of fuel. -/
@@ -617,66 +693,58 @@ theorem sim {g : Grammar} {x : Sem.Env} (h : Hyp g x) (c : Sem.Ctx) (hc : c.eol 
     | succ m =>
       cases e with
       | str t v sup =>
-        cases sup with
-        | true => simp [Repr] at hr
-        | false =>
-          obtain ⟨nd, hnd, hk, ht, hs, hroot⟩ := hr
-          obtain ⟨s', i', hm⟩ := matchNode_str h hi (parse g n) n id nd hk hs
-          simp only [parse, nodeParse, hnd, hk, Sem.pExpr, layout_none, Expr.sup, ← ht]
-          rcases hm with ⟨hn, he⟩ | ⟨len, hl, hp, he⟩
-          · rw [he, hn]; simpa [Rel] using i'
-          · rw [he, hl]
-            have hge := startPos_ge x c s.pos
-            have hlen : len ≠ 0 := fun h0 => h.nonempty _ _ (h0 ▸ hl)
+        obtain ⟨nd, hnd, hk, ht, hs, hroot⟩ := hr
+        obtain ⟨s', i', hm⟩ := matchNode_str h hi (parse g n) n id nd hk
+        simp only [parse, nodeParse, hnd, hk, Sem.pExpr, layout_none, Expr.sup, ← ht, hs] at hm ⊢
+        rcases hm with ⟨hn, he⟩ | ⟨len, hl, hp, he⟩
+        · rw [he, hn]; simpa [Rel] using i'
+        · rw [he, hl]
+          have hge := startPos_ge x c s.pos
+          have hlen : len ≠ 0 := fun h0 => h.nonempty _ _ (h0 ▸ hl)
+          cases sup with
+          | true => simp only [Rel, if_true]; exact ⟨hp, i', by simp [leaves], by omega, by simp [falsy]⟩
+          | false =>
             simp only [Rel, Bool.false_eq_true, if_false]
-            refine ⟨hp, i', by simp [leaves, key, hnd], by omega, fun _ => ⟨by simp [Val.truthy], by omega⟩⟩
+            exact ⟨hp, i', by simp [leaves, key, hnd], by omega, fun _ => ⟨by simp [Val.truthy], by omega⟩⟩
       | seq xs sup =>
-        cases sup with
-        | true => simp [Repr] at hr
-        | false =>
-          obtain ⟨nd, hnd, hk, hs, hroot, hws, hsk, hkids⟩ := hr
-          have hseq := seq_sim ihn xs nd.kids hkids (by simpa [docExpr] using hd) s [] [] m s.pos false hi
-            (by simp) (by simp [leavesList]) (Nat.le_refl _) (by simp)
-          simp only [parse, nodeParse, hnd, hk, h.memo, wrap_post, bodyNode, withWsCtx_none _ _ _ hws hsk,
-            Sem.pExpr, Expr.sup, sup_false, sup_false', Bool.false_eq_true, if_false, falsy, Bool.false_or]
-          simp only [Bool.false_or] at hseq
-          have := hseq.post id nd s.pos hs hroot
-          rcases hl : seqLoop (parse g n) nd.kids s [] with ⟨r, s2⟩
-          rw [hl] at this
-          cases hps : Sem.pSeq x none m c xs s.pos [] <;> rw [hps] at this <;> cases r <;>
-            simpa [Sim.post] using this
+        obtain ⟨nd, hnd, hk, hs, hroot, hws, hsk, hkids⟩ := hr
+        have hseq := seq_sim ihn xs nd.kids hkids (by simpa [docExpr] using hd) s [] [] m s.pos false hi
+          (by simp) (by simp [leavesList]) (Nat.le_refl _) (by simp)
+        simp only [Bool.false_or] at hseq
+        have := hseq.postS id nd s.pos sup hs hroot
+        simp only [parse, nodeParse, hnd, hk, h.memo, wrap_post, bodyNode, withWsCtx_none _ _ _ hws hsk,
+          pExpr_seq, falsy]
+        rcases hl : seqLoop (parse g n) nd.kids s [] with ⟨r, s2⟩
+        rw [hl] at this
+        have hb : (!(sup || falsyAll nf ff xs)) = (!falsyAll nf ff xs && !sup) := by
+          cases sup <;> cases falsyAll nf ff xs <;> rfl
+        rw [hb]
+        cases r <;> simpa [Sim.post] using this
       | alt xs sup =>
-        cases sup with
-        | true => simp [Repr] at hr
-        | false =>
-          obtain ⟨nd, hnd, hk, hs, hroot, hws, hsk, hkids⟩ := hr
-          simp only [docExpr, Bool.and_eq_true, Bool.not_eq_true'] at hd
-          have hseq := choice_sim ihn xs nd.kids hkids hd.2 hd.1 s m s.pos hi rfl
-          simp only [parse, nodeParse, hnd, hk, h.memo, wrap_post, bodyNode, withWsCtx_none _ _ _ hws hsk,
-            Sem.pExpr, Expr.sup, sup_false, sup_false', Bool.false_eq_true, if_false, falsy, Bool.false_or, hd.1, Bool.not_false]
-          rcases hl : choiceLoop (parse g n) nd.kids s.pos s with ⟨r, s2⟩
-          rw [hl] at hseq
-          have hseq' : RelSeq g.nodes c s.pos true
-              (match ((r, s2) : Res × PState) with
-                | (.nomatch, s2) => (.nomatch, s2.nmRaise s.pos)
-                | r => r) (Sem.pAlt x none m c xs s.pos) := by
-            cases r with
-            | «nomatch» =>
-              unfold RelSeq at hseq ⊢
-              cases hps : Sem.pAlt x none m c xs s.pos <;> rw [hps] at hseq <;> simp at hseq ⊢
-              exact hseq.nmRaise _
-            | _ => exact hseq
-          have := hseq'.post id nd s.pos hs hroot
-          cases hps : Sem.pAlt x none m c xs s.pos <;> rw [hps] at this <;> cases r <;>
-            simpa [Sim.post] using this
+        obtain ⟨nd, hnd, hk, hs, hroot, hws, hsk, hkids⟩ := hr
+        simp only [docExpr, Bool.and_eq_true, Bool.not_eq_true'] at hd
+        have hseq := choice_sim ihn xs nd.kids hkids hd.2 hd.1 s m s.pos hi rfl
+        simp only [parse, nodeParse, hnd, hk, h.memo, wrap_post, bodyNode, withWsCtx_none _ _ _ hws hsk,
+          pExpr_alt, falsy, hd.1, Bool.or_false]
+        rcases hl : choiceLoop (parse g n) nd.kids s.pos s with ⟨r, s2⟩
+        rw [hl] at hseq
+        have hseq' : RelSeq g.nodes c s.pos true
+            (match ((r, s2) : Res × PState) with
+              | (.nomatch, s2) => (.nomatch, s2.nmRaise s.pos)
+              | r => r) (Sem.pAlt x none m c xs s.pos) := by
+          cases r with
+          | «nomatch» =>
+            unfold RelSeq at hseq ⊢
+            cases hps : Sem.pAlt x none m c xs s.pos <;> rw [hps] at hseq <;> simp at hseq ⊢
+            exact hseq.nmRaise _
+          | _ => exact hseq
+        have := hseq'.postS id nd s.pos sup hs hroot
+        cases r <;> simpa [Sim.post] using this
       | rep op y sep eol sup =>
         cases sep with
         | some _ => simp [Repr] at hr
         | none =>
         cases eol with
-        | true => simp [Repr] at hr
-        | false =>
-        cases sup with
         | true => simp [Repr] at hr
         | false =>
           obtain ⟨nd, kid, hnd, hk, hs, hroot, hsep, heol, hkids, hry⟩ := hr
@@ -685,18 +753,20 @@ theorem sim {g : Grammar} {x : Sem.Env} (h : Hyp g x) (c : Sem.Ctx) (hc : c.eol 
           | opt =>
             have h1 := ihn y kid s m hry hd.2 hi
             simp only [repKind] at hk
-            simp only [parse, nodeParse, hnd, hk, h.memo, wrap_post, bodyNode, hkids, Sem.pExpr, Expr.sup, falsy,
-              Bool.false_or, Bool.not_true]
+            simp only [parse, nodeParse, hnd, hk, h.memo, wrap_post, bodyNode, hkids, pExpr_opt, falsy,
+              Bool.or_true, Bool.not_true]
             unfold Rel at h1
             rcases hp1 : parse g n kid s with ⟨r1, s1⟩
             rw [hp1] at h1
             cases r1 with
             | fuel => simp [Sim.post, Rel]
-            | bad => cases hs1 : Sem.pExpr x none m c y s.pos <;> simp [hs1] at h1 <;> simp [Sim.post, Rel]
+            | bad => cases hs1 : Sem.pExpr x none m c y s.pos <;> simp [hs1] at h1 <;> simp [Sim.post, Rel, supWrap]
             | «nomatch» =>
-              cases hs1 : Sem.pExpr x none m c y s.pos <;> simp [hs1] at h1 <;> simp [Sim.post, Rel]
+              cases hs1 : Sem.pExpr x none m c y s.pos <;> simp [hs1] at h1 <;> simp [Sim.post, Rel, supWrap]
               refine ⟨h1.pos _, ?_⟩
-              simp [finish, hs, hroot, leaves]
+              cases sup
+              · simp [finish, hs, hroot, leaves]
+              · simp [finish_sup id nd _ hs, leaves]
             | ok v =>
               cases hs1 : Sem.pExpr x none m c y s.pos with
               | fuel => exact Rel.fuel_right _ _ _ _ _
@@ -706,39 +776,34 @@ theorem sim {g : Grammar} {x : Sem.Env} (h : Hyp g x) (c : Sem.Ctx) (hc : c.eol 
                 rw [hs1] at h1
                 simp only at h1
                 obtain ⟨e1, i1, l1, le1, _⟩ := h1
-                simp only [Sim.post, Rel, Bool.false_eq_true, if_false, false_implies, and_true]
+                simp only [Sim.post, Rel, supWrap, Bool.false_eq_true, false_implies, and_true]
                 refine ⟨e1, i1, ?_, le1⟩
-                cases v with
-                | none => simpa [finish_optnone id nd hs hroot, leaves] using l1
-                | term a b d =>
-                  rw [finish_plain id nd _ hs hroot (by simp)]; simpa [leaves, leavesList] using l1
-                | nt a b =>
-                  rw [finish_plain id nd _ hs hroot (by simp)]; simpa [leaves, leavesList] using l1
-                | list b =>
-                  rw [finish_plain id nd _ hs hroot (by simp)]; simpa [leaves, leavesList] using l1
+                cases sup with
+                | true => simp [finish_sup id nd _ hs, leaves]
+                | false =>
+                  simp only [Bool.false_eq_true, if_false]
+                  cases v with
+                  | none => simpa [finish_optnone id nd hs hroot, leaves] using l1
+                  | term a b d =>
+                    rw [finish_plain id nd _ hs hroot (by simp)]; simpa [leaves, leavesList] using l1
+                  | nt a b =>
+                    rw [finish_plain id nd _ hs hroot (by simp)]; simpa [leaves, leavesList] using l1
+                  | list b =>
+                    rw [finish_plain id nd _ hs hroot (by simp)]; simpa [leaves, leavesList] using l1
           | star =>
             have hf : falsy nf ff y = false := by rcases hd.1 with h' | h'; exact absurd h' (by decide); exact h'
             have hrep := rep_sim ihn y kid hry hd.2 hf n s [] [] m false false true false s.pos hi (by simp)
               (by simp [leavesList]) (Nat.le_refl _) (by simp) (by simp)
             simp only [repKind] at hk
             simp only [parse, nodeParse, hnd, hk, h.memo, wrap_post, bodyNode, hkids, hsep,
-              withEol_false _ _ _ heol, Sem.pExpr, Expr.sup, falsy, Bool.false_or, Bool.not_true,
-              Bool.false_eq_true, ↓reduceIte]
-            rcases hl : repLoop (parse g n) kid none n s [] false false with ⟨r, s2⟩
-            rw [hl] at hrep
-            unfold RelRep at hrep
-            generalize hps : Sem.pRep x none m c y none s.pos [] true = sr at hrep ⊢
-            cases sr <;> cases r <;> simp at hrep <;> simp [Sim.post, Rel]
-            rename_i p1 its v
-            obtain ⟨a1, a2, a3, a4, a5⟩ := hrep
-            rw [finish_plain id nd v hs hroot a5]
-            exact ⟨a1, a2, a3, a4⟩
+              withEol_false _ _ _ heol, pExpr_star, falsy, Bool.or_true, Bool.not_true]
+            have := hrep.postS id nd s.pos sup hs hroot
+            simpa using this
           | plus =>
             have hf : falsy nf ff y = false := by rcases hd.1 with h' | h'; exact absurd h' (by decide); exact h'
             simp only [repKind] at hk
             simp only [parse, nodeParse, hnd, hk, h.memo, wrap_post, bodyNode, hkids, hsep,
-              withEol_false _ _ _ heol, Sem.pExpr, Expr.sup, falsy, Bool.false_or, hf, Bool.not_false,
-              Bool.false_eq_true, ↓reduceIte]
+              withEol_false _ _ _ heol, pExpr_plus, falsy, hf, Bool.or_false]
             -- first iteration of the loop = the mandatory first element
             cases n with
             | zero => simp [repLoop, Sim.post, Rel]
@@ -750,9 +815,9 @@ theorem sim {g : Grammar} {x : Sem.Env} (h : Hyp g x) (c : Sem.Ctx) (hc : c.eol 
               rw [hp1] at h1
               cases r1 with
               | fuel => simp [Sim.post, Rel]
-              | bad => cases hs1 : Sem.pExpr x none m c y s.pos <;> simp [hs1] at h1 <;> simp [Sim.post, Rel]
+              | bad => cases hs1 : Sem.pExpr x none m c y s.pos <;> simp [hs1] at h1 <;> simp [Sim.post, Rel, supWrap]
               | «nomatch» =>
-                cases hs1 : Sem.pExpr x none m c y s.pos <;> simp [hs1] at h1 <;> simp [Sim.post, Rel]
+                cases hs1 : Sem.pExpr x none m c y s.pos <;> simp [hs1] at h1 <;> simp [Sim.post, Rel, supWrap]
                 exact h1.pos _
               | ok v =>
                 cases hs1 : Sem.pExpr x none m c y s.pos with
@@ -770,15 +835,8 @@ theorem sim {g : Grammar} {x : Sem.Env} (h : Hyp g x) (c : Sem.Ctx) (hc : c.eol 
                     (by simp [leavesList, l1]) (by omega) (by simp) (by intro _; exact Or.inr ⟨by simp, by omega⟩)
                   rw [e1] at hrep
                   simp only [t1, hne, ↓reduceIte]
-                  rcases hl : repLoop (parse g (k+1)) kid none k s1 [v] false true with ⟨r, s2⟩
-                  rw [hl] at hrep
-                  unfold RelRep at hrep
-                  generalize hps : Sem.pRep x none m c y none p1 its false = sr at hrep ⊢
-                  cases sr <;> cases r <;> simp at hrep <;> simp [Sim.post, Rel]
-                  rename_i p2 its2 v2
-                  obtain ⟨a1, a2, a3, a4, a5, a6, a7⟩ := hrep
-                  rw [finish_plain id nd v2 hs hroot a5]
-                  exact ⟨a1, a2, a3, a4, a6, a7⟩
+                  have := hrep.postS id nd s.pos sup hs hroot
+                  simpa using this
       | _ => simp [Repr] at hr
 
 end Tx.Sim
